@@ -22,6 +22,12 @@ in float64/complex128; eps = machine epsilon of the case dtype):
       a violation. gmres is not in the class (the statement excludes it), so only (a),(b) apply to it; spectra with <= n-2
       distinct eigenvalues make it converge silently so that (b) is exercised for it as well.
 (d) M supplied without E is ignored (documented warning) and changes nothing.
+(e) units and the normal equations: (b) is stated by the code in terms of |b| (plain recursion) resp. |S^H b| (normal equations) and
+    the absolute atol, so it distinguishes the two readings only when |S| is far from 1: operators in units of 1e-4..1e4 (B stays
+    O(1)) make "relative to |S^H b|" and "relative to |b|" differ by that factor, and a loop that tests the wrong one stops orders of
+    magnitude early (silent, fails both readings) or never (warning inside the class).  The adjoint product S^H b that sets up the
+    normal equations is the only product whose argument can have fewer batch dimensions than the operator: the task 'normaleq'
+    generates operators with two batch dimensions and right-hand sides with one or none.
 """
 from __future__ import annotations
 
@@ -45,16 +51,28 @@ RULE = ("n in 1..16 (thorough 24), ncols 1..3, target batch rank 0..2 (dims 1..3
         "Hermitian flag on/off (propagated through trees); "
         "E mode {none, E, E+M, M only}; real/complex shifts, complex shifts with |Im e| up to 3 on half-plane spectra; task 'offaxis' "
         "concentrates on c128 systems with spectra far off the real axis, n up to 24 in both tiers, mostly bicgstab; method {exactsolve, custom_exactsolve, cg, bicgstab, gmres, broyden1}; "
+        "the operator in units of 10^aunit (aunit in -4..4, 0 in five of nine general cases; A and with it every A - eM multiplied by the unit, which "
+        "the shift term follows through E or through M; B stays O(1); constant parts of composed operators drawn in the same unit; not for "
+        "broyden1, counted as aunit_dropped); task 'normaleq' concentrates on the Krylov loops run on the normal equations S^H S x = S^H b "
+        "(posdef=False, or cg on an operator not flagged Hermitian): n 2..16, cond in {2,10,100}, units 1e-4..1e4, operators with two batch "
+        "dimensions (equal sizes half of the time) carrying the full batch while B/E/M take any sub-pattern -- in particular B with some but "
+        "fewer batch dimensions than the operator (label Bpartial) --, mostly no E; "
         "B columns / batch entries scaled by 10^k (k in -4..4), optionally one column in a 2-dimensional invariant subspace; options (rtol, atol, max_niter, resid_calc_every, posdef, preconditioners, f_tol, line_search); zero columns / all-zero B. Non-trivial = n>=2, B not "
         "identically zero and the call was silent (so the accuracy claim was actually decided); distinct by (method, E mode, kind, "
-        "dtype, spectrum, batch class, n, in-class flag).")
+        "dtype, spectrum, batch class, n, in-class flag, sign of aunit).")
 ASSUMPTIONS = [
     "dense reference and residuals evaluated in float64/complex128 with torch.linalg (LAPACK)",
     "rounding slack 1e3*n*eps*(|S||x|+|b|) per column; eps of the case dtype",
     "E keeps every shifted matrix well conditioned: Hermitian PD A gets e<=0 (or small e), others |e| <= 0.3 sigma_min(A)/|M|; "
     "large shifts e = exp(i theta)(-s + i t) (s in [0,2], |t| <= eoff <= 3) only for spectra with field of values in Re(exp(-i theta) z) >= 1, "
     "for which that of exp(-i theta)(A - e M) stays in Re >= 1 (sigma_min >= 1, cond <= kappa + 8)",
-    "M is Hermitian positive definite with eigenvalues in [0.5, 2]",
+    "M is Hermitian positive definite with eigenvalues in [0.5, 2] (times the unit 10^aunit when the unit is carried by M)",
+    "units: every bound of the oracle is homogeneous in the unit of the operator (slack and reference tolerance through |S| and sigma_min(S), "
+    "the two stopping tests through |b| resp. |S^H b| and the caller's atol exactly as the code states them), so nothing is loosened for "
+    "aunit != 0; the silent-convergence class keeps its members under a change of unit (direct methods, cg, bicgstab: their recursions "
+    "are invariant, only the absolute atol=1e-8 enters, which makes the normal-equations test easier for small units and is still 1e-6 "
+    "relative to |S^H b| for large ones) except broyden1, whose documented initial inverse Jacobian -alpha I ties the operator's unit "
+    "to that of B and X: units are not applied to broyden1",
     "B has O(1) entries, exactly-zero columns, or is scaled as a whole by 1e-9 / 1e6 together with atol=1e-16 (so that the early exit |B| <= atol must not trigger)",
     "silent-convergence class restricted to float64/complex128, cond<=10, default options (or only posdef=False); n<=8 except direct methods, plain CG/BiCGSTAB on Hermitian positive definite systems and BiCGSTAB on rotated-disc spectra / Hermitian PD A with large imaginary shifts (n<=24; measured on the unchanged tree: 0 warnings in 3400 such cases with n in 9..24, still 0 with n instead of int(1.5 n) iterations); broyden1 only for O(1) right-hand sides",
     "expression trees: the constant parts P are unbatched O(1) random matrices (Hermitian under a Hermitian flag), products use P = 1.5 * unitary; the tree's matrix equals the target up to a few eps |P|, covered by the rounding slack",
@@ -115,6 +133,15 @@ def build_problem(case, g=None):
     if em in ("EM", "M"):
         M = R.spd_matrix(g, case["bM"], n, dt).to(dt)
         M = 0.5 * (M + R.H(M))
+    unit = 10.0 ** eff_aunit(case)
+    if unit != 1.0:
+        # the operator in another unit: A (and with it every shifted matrix A - e M) is multiplied by 10^aunit; the shift term
+        # follows through E (M stays O(1)) or, with "munit", through M (E stays O(1)).  B, hence the tolerances, stay O(1)
+        A = A * unit
+        if M is not None and (case.get("munit") or E is None):
+            M = M * unit
+        elif E is not None:
+            E = E * unit
     if case.get("easycol") and not (case["bA"] or case["bE"] or case["bM"]) and z != "all":
         # column 0 lies in a 2-dimensional invariant subspace of S_0^H S_0 (of S_0 itself when it is normal): it converges
         # after two iterations while the other columns go on
@@ -122,9 +149,18 @@ def build_problem(case, g=None):
         S0 = R.dense_shifted(A.to(wd), None if E is None else E.to(wd), None if (M is None or E is None) else M.to(wd), ncols)[0]
         _, _, Vh = torch.linalg.svd(S0)
         v = R.H(Vh)[:, [0, n - 1]].sum(dim=-1) if n >= 2 else R.H(Vh)[:, 0]
-        b0 = torch.matmul(S0, v).to(dt)
+        b0 = (torch.matmul(S0, v) / unit).to(dt)
         B[..., 0] = b0 * B[..., 0].abs().max(dim=-1, keepdim=True)[0]
     return A, B, E, M, g
+
+
+def eff_aunit(case):
+    """decimal exponent of the operator's unit.  Not applied to broyden1: its documented initial inverse Jacobian -alpha*I
+    (alpha = 0.5 max(|x0|, 1)/|f(x0)| = 0.5/|B|) fixes the unit of the operator to that of B/X, so an operator in units of 1e-4
+    is outside what its defaults are made for (900 iterations without convergence on the unchanged tree, as in scipy);
+    the cases are counted by the label aunit_dropped"""
+    k = int(case.get("aunit") or 0)
+    return 0 if case["method"] == "broyden1" else k
 
 
 def eoff_active(case):
@@ -194,13 +230,15 @@ def run_case(case):
         kind = "mv_rmv"
     counter = {}
     treelab = []
+    aunit = eff_aunit(case)
+    pscale = 10.0 ** aunit          # constant parts of composed operators are drawn in the operator's unit
     if kind == "tree":
-        Aop = xt_call(R.make_tree, case["tree"], A, herm and case["hflag"], g, counter, _where="construct")
+        Aop = xt_call(R.make_tree, case["tree"], A, herm and case["hflag"], g, counter, pscale, _where="construct")
         kind = "tree:" + R.tree_signature(case["tree"])
         lv = R.tree_leaves(case["tree"])
         treelab = ["leaves=" + ("dense" if all(k == "dense" for k in lv) else ("jac" if "jac" in lv else "matrixfree"))]
     else:
-        Aop = xt_call(R.make_operator, kind, A, herm and case["hflag"], g, counter, case["leaf"], _where="construct")
+        Aop = xt_call(R.make_operator, kind, A, herm and case["hflag"], g, counter, case["leaf"], pscale, _where="construct")
     Mop = None
     if M is not None:
         Mop = xt_call(R.make_leaf, case["mkind"], M, True, counter, _where="construct")
@@ -220,9 +258,19 @@ def run_case(case):
                 opts["precond_r"] = P
     cls = in_silent_class(case, bool(Aop.is_hermitian))
     mutate = case.get("mutate") if kind in R.LEAF_KINDS else None
+    # which system the Krylov loop iterates on (read off the documented options and the operator's flag): the normal equations
+    # S^H S x = S^H b for posdef=False and for cg on an operator not flagged Hermitian, else S x = b
+    if method in KRYLOV:
+        m_herm = Mop is None or E is None or bool(Mop.is_hermitian)
+        path = "normaleq" if (case["opts"].get("posdef") is False or (method == "cg" and not (bool(Aop.is_hermitian) and m_herm))) else "plain"
+    else:
+        path = "na"
+    # the right-hand side has batch dimensions, but fewer than the operator (and no E whose layout would pad them)
+    bpartial = E is None and 0 < len(case["bB"]) < len(case["bA"])
     batchclass = "b%d%d%d%d" % (len(case["bA"]), len(case["bB"]), len(case["bE"]) if E is not None else 0, len(case["bM"]) if M is not None else 0)
     labels = ["method=" + method, "emode=" + case["emode"], "kind=" + kind, "dtype=" + case["dtype"], "spec=" + case["spec"], "offaxis=%s" % offaxis_label(case),
-              "batch=" + batchclass, "zero=" + case["zero"], "bscale=%s" % bool(case.get("bscale")), "easycol=%s" % bool(case.get("easycol")), "class=%s" % cls, "precond=%s" % pre, "opts=%s" % bool(case["opts"]), "mutate=%s" % mutate, "bglobal=%s" % case.get("bglobal")] + treelab
+              "batch=" + batchclass, "zero=" + case["zero"], "bscale=%s" % bool(case.get("bscale")), "easycol=%s" % bool(case.get("easycol")), "class=%s" % cls, "precond=%s" % pre, "opts=%s" % bool(case["opts"]), "mutate=%s" % mutate, "bglobal=%s" % case.get("bglobal"),
+              "aunit=%d" % aunit, "aunit_dropped=%s" % bool(aunit != int(case.get("aunit") or 0)), "path=" + path, "Bpartial=%s" % bpartial] + treelab
 
     if mutate:
         # history on the same operator objects: solve, change the operators' matrices in place (as an optimiser step or a
@@ -336,7 +384,7 @@ def run_case(case):
     if case["emode"] == "M":
         # (d) M without E changes nothing: covered, since the reference ignores M
         pass
-    key = [method, case["emode"], kind, case["dtype"], case["spec"], batchclass, n, cls]
+    key = [method, case["emode"], kind, case["dtype"], case["spec"], batchclass, n, cls, (aunit > 0) - (aunit < 0)]
     return ok(labels + ["silent"], n >= 2, key=key + [case["seed"] % 64])
 
 
@@ -347,15 +395,23 @@ def case_st(draw, tier="quick", methods=METHODS, focus=None):
     """focus="offaxis": complex systems whose shifted matrices have their spectra far off the real axis (rotated discs,
     shifts with large imaginary parts), larger n, mostly default options"""
     nmax = 16 if tier == "quick" else 24
-    if focus == "offaxis":
+    if focus == "normaleq":
+        # from ~6 unknowns on, a loop that stops a few orders of magnitude too early (or too late) is no longer rescued by
+        # finite termination when cond^2 is small
+        n = draw(st.one_of(st.integers(2, 8), st.integers(6, 16)))
+    elif focus == "offaxis":
         # up to 24 in both tiers: beyond n ~ 8 BiCGSTAB no longer lives on its finite-termination property (broyden1: min(n, 6) below)
         n = draw(st.one_of(st.integers(2, 8), st.integers(9, 16), st.integers(17, 24)))
     else:
         n = draw(st.one_of(st.integers(1, 4), st.integers(1, 8), st.integers(1, 8), st.integers(9, nmax)))
     ncols = draw(st.integers(1, 3))
     batch = draw(R.batch_st(2))
+    if focus == "normaleq" and draw(st.integers(0, 2)) != 0:
+        # operators with two batch dimensions (of equal size half of the time: a mix-up of batch axes then keeps every shape)
+        k = draw(st.integers(2, 3))
+        batch = [k, k] if draw(st.booleans()) else [draw(st.integers(1, 3)), draw(st.integers(2, 3))]
     # coincidence of sizes (batch == n == ncols) is a known trouble spot: make it likely
-    if draw(st.integers(0, 7)) == 0:
+    if focus != "normaleq" and draw(st.integers(0, 7)) == 0:
         k = draw(st.integers(1, 3))
         n, ncols, batch = k, k, [k] * draw(st.integers(1, 2))
     if focus == "offaxis":
@@ -365,6 +421,15 @@ def case_st(draw, tier="quick", methods=METHODS, focus=None):
                                     ["rot_disc", "rot_disc", "rot_disc", "few_rot_disc", "spd", "normal_rhp", "few_normal"]))
         kappa = draw(st.sampled_from([2, 10, 10]))
         emode = draw(st.sampled_from(["none", "E", "E", "EM", "EM"]))
+    elif focus == "normaleq":
+        method = draw(st.sampled_from(["cg", "cg", "cg", "bicgstab", "gmres"]))
+        dtype = draw(st.sampled_from(["f64", "f64", "c128", "c128", "f32"]))
+        if method == "gmres":
+            spec = draw(st.sampled_from(["few_spd", "few_normal", "general"] + (["few_rot_disc"] if dtype == "c128" else [])))
+        else:
+            spec = draw(st.sampled_from(R.SPECTRA + (R.ROTATED_SPECTRA if dtype == "c128" else ())))
+        kappa = draw(st.sampled_from([2, 2, 10, 10, 100]))
+        emode = draw(st.sampled_from(["none", "none", "none", "M", "E", "EM"]))
     else:
         method = draw(st.sampled_from(methods))
         dtype = draw(st.sampled_from(["f64", "f64", "c128", "c128", "f32"]))
@@ -377,7 +442,7 @@ def case_st(draw, tier="quick", methods=METHODS, focus=None):
         emode = draw(st.sampled_from(["none", "none", "E", "E", "EM", "EM", "M"]))
     theta = draw(st.integers(0, 359)) if spec in R.ROTATED_SPECTRA else 0
     # |Im e| up to eoff for half-plane spectra in complex arithmetic (see build_problem); 0 = the small shifts
-    eoff = draw(st.sampled_from([0, 0, 1, 3] if focus is None else [0, 1, 2, 3]))
+    eoff = draw(st.sampled_from([0, 0, 1, 3] if focus != "offaxis" else [0, 1, 2, 3]))
     areal = draw(st.integers(0, 3)) == 0
     kind = draw(st.sampled_from(R.KINDS + ("tree",) * 6))
     tree = draw(R.tree_st(2)) if kind == "tree" else None
@@ -386,7 +451,25 @@ def case_st(draw, tier="quick", methods=METHODS, focus=None):
         # there are (column-by-column products, autograd adjoints): keep one in four of these combinations
         method = draw(st.sampled_from(["cg", "bicgstab", "exactsolve", "custom_exactsolve"]))
     opts = {}
-    if draw(st.integers(0, 2 if focus is None else 5)) == 0:
+    hflag = draw(st.sampled_from([True, True, False]))
+    # unit of the operator: A (with E or M) in units of 10^aunit, B stays O(1)
+    aunit = draw(st.sampled_from([0, 0, 0, 0, 0, -4, -2, 2, 4] if focus != "normaleq" else [0, -4, -3, -2, -1, 1, 2, 3, 4]))
+    munit = draw(st.booleans())
+    if focus == "normaleq":
+        # the loop runs on S^H S x = S^H b: by request (posdef=False), or -- cg -- because the operator is not flagged Hermitian
+        if method != "cg" or draw(st.integers(0, 2)) == 0:
+            opts["posdef"] = False
+        else:
+            hflag = False
+        if draw(st.integers(0, 3)) == 0:
+            rt = [1e-3, 1e-4] if dtype == "f32" else [1e-4, 1e-6, 1e-8, 1e-10]
+            if draw(st.booleans()):
+                opts["rtol"] = draw(st.sampled_from(rt))
+            if draw(st.booleans()):
+                opts["atol"] = draw(st.sampled_from([1e-5, 1e-8, 1e-12]))
+            if method != "gmres" and draw(st.booleans()):
+                opts["resid_calc_every"] = draw(st.sampled_from([0, 1, 3]))
+    elif draw(st.integers(0, 2 if focus is None else 5)) == 0:
         if method in KRYLOV:
             rt = [1e-3, 1e-4] if dtype == "f32" else [1e-4, 1e-6, 1e-8, 1e-10]
             if draw(st.booleans()):
@@ -414,12 +497,14 @@ def case_st(draw, tier="quick", methods=METHODS, focus=None):
     if dtype == "f32" and method == "broyden1" and "f_tol" not in opts:
         opts["f_tol"] = 1e-3
     bglobal = None
-    if method in KRYLOV and dtype != "f32" and draw(st.integers(0, 5)) == 0:
+    if method in KRYLOV and dtype != "f32" and focus != "normaleq" and draw(st.integers(0, 5)) == 0:
         # a tiny (or huge) right-hand side together with a caller-chosen absolute tolerance far below it
         bglobal = draw(st.sampled_from([1e-9, 1e-9, 1e6]))
         opts["atol"] = 1e-16
-    easy = draw(st.integers(0, 5)) == 0
+    easy = focus != "normaleq" and draw(st.integers(0, 5)) == 0
     bA, bB, bE, bM = (R.sub_batch(draw, batch) for _ in range(4))
+    if focus == "normaleq" and draw(st.booleans()):
+        bA = list(batch)            # the operator carries every batch dimension, the other operands any sub-pattern
     if easy:
         # scenario: one right-hand side converges after two iterations while the others go on (larger n, several columns,
         # unbatched operator side so that the invariant-subspace column can be constructed)
@@ -441,7 +526,7 @@ def case_st(draw, tier="quick", methods=METHODS, focus=None):
         "dtype": dtype, "spec": spec, "kappa": kappa, "kind": kind, "tree": tree, "theta": theta, "eoff": eoff, "areal": areal,
         "leaf": draw(st.sampled_from(["dense", "mv", "mv_rmv", "all"])),
         "mkind": draw(st.sampled_from(["dense", "mv", "all"])),
-        "hflag": draw(st.sampled_from([True, True, False])),
+        "hflag": hflag, "aunit": aunit, "munit": munit,
         "method": method, "emode": emode, "ecomplex": draw(st.booleans()), "eneg": draw(st.sampled_from([True, True, False])),
         "opts": opts, "zero": draw(st.sampled_from(["none", "none", "none", "none", "some", "all"])),
         "bscale": bscale,
@@ -453,4 +538,5 @@ def case_st(draw, tier="quick", methods=METHODS, focus=None):
 
 def tasks(tier):
     return [Task("solve", strategy=case_st(tier), run=run_case, examples={"quick": 2400, "thorough": 40000}),
-            Task("offaxis", strategy=case_st(tier, focus="offaxis"), run=run_case, examples={"quick": 400, "thorough": 6000})]
+            Task("offaxis", strategy=case_st(tier, focus="offaxis"), run=run_case, examples={"quick": 400, "thorough": 6000}),
+            Task("normaleq", strategy=case_st(tier, focus="normaleq"), run=run_case, examples={"quick": 500, "thorough": 6000})]
